@@ -142,6 +142,16 @@ func (c Cache) ImportsFor(target *types.Package) []string {
 	return imports
 }
 
+// ConstLiteral returns the literal of the given constant, written as in Go.
+// [constant.Value.String] shortens the strings of more than 72 characters :
+// it can not be used in generated code.
+func ConstLiteral(val constant.Value) string {
+	if val.Kind() == constant.String {
+		return val.ExactString()
+	}
+	return val.String()
+}
+
 // SQLLiteral returns the SQL literal for the given constant :
 // numbers are printed as written, strings use single quotes (doubled when
 // they appear in the string).
